@@ -97,11 +97,11 @@ def r073(ctx):
         tbl = {}
         for a in g['arms']:
             for alt in H.pat_alternatives(a['pat']):
-                tbl[panics.variant_of(H.pat_term(alt))] = H.term(a['body']).strip('{};')  # `{ return x; }` and `return x` are one body
+                tbl[panics.variant_of(H.pat_term(alt))] = gate_body(ctx, a['body'])
         site = ctx.site(D.PROCESS, g)
         r.eq('Steady', tbl.get('Steady'), 'ch0_slot', site)
         r.eq('ClientException', tbl.get('ClientException'), 'return Ok(())', site, why='after a client exception further frames are ignored')
-        fu = 'return errors::FrameUnexpectedSnafu::fail(errors::FrameUnexpectedSnafu)'
+        fu = 'return Err(errors::Error::FrameUnexpected)'
         r.eq('ServerClosing', tbl.get('ServerClosing'), fu, site)
         r.eq('ClientClosed', tbl.get('ClientClosed'), fu, site)
         # the gate dominates the frame match
@@ -111,6 +111,16 @@ def r073(ctx):
                 built=[gd[3] for gd in ev_m[0].guards] if ev_m else None, expected='`match frame` only under the Steady outcome of the gate')
 
 
+def gate_body(ctx, body):
+    """what a gate arm does, in the reader's canonical terms: `ch0_slot`, `return Ok(())`, `return Err(..)`"""
+    ev = ctx.evaluator(0)
+    t = ev.eval(body, {}, [], None, [])
+    rets = [e for e in ev.events if e.kind == 'ret']
+    if rets:
+        return 'return ' + S.show(rets[0].term)
+    return S.show(t)
+
+
 def r074(ctx):
     with ctx.rule('R07.4', 'slot and consumer-tag lookups fail as errors (never unwrap): bogus channel id, unknown tag, duplicate tag', floor=8) as r:
         for nm, inner in (('slot_get', 'get'), ('slot_get_mut', 'get_mut'), ('slot_remove', 'remove')):
@@ -118,7 +128,7 @@ def r074(ctx):
             ctx.fn(fnp)
             ev = ctx.evaluator(0)
             t = ev.run_fn(fnp, [('var', 'inner', -1), ('var', 'channel_id', -2)])
-            want = '<std::option::Option<T> as snafu::OptionExt<T>>::context(io_loop::channel_slots::ChannelSlots::%s(inner.chan_slots, channel_id), errors::ReceivedFrameWithBogusChannelIdSnafu{channel_id: channel_id})' % inner
+            want = 'std::option::Option::ok_or(io_loop::channel_slots::ChannelSlots::%s(inner.chan_slots, channel_id), errors::Error::ReceivedFrameWithBogusChannelId{channel_id: channel_id})' % inner
             r.eq(nm, S.show(t), want, ctx.site(fnp), why='an unknown channel id must become ReceivedFrameWithBogusChannelId carrying that id')
         m, arms, _ = D.read(ctx)
         # every slot lookup result in an arm is propagated with `?` (or is the documented CloseOk race probe)
@@ -134,7 +144,7 @@ def r074(ctx):
         # duplicate consumer tag: entry API, Occupied -> DuplicateConsumerTag
         a = [x for x in arms if x.keys == [('Method', 'n', 'basic', 'ConsumeOk')]][0]
         rets = [e for e in a.events if e.kind == 'ret']
-        want = 'errors::DuplicateConsumerTagSnafu::fail(errors::DuplicateConsumerTagSnafu{channel_id: frame.Method.0, consumer_tag: frame.Method.1.Basic.0.ConsumeOk.0.consumer_tag})'
+        want = 'Err(errors::Error::DuplicateConsumerTag{channel_id: frame.Method.0, consumer_tag: frame.Method.1.Basic.0.ConsumeOk.0.consumer_tag})'
         r.check('duplicate-tag', len(rets) == 1 and S.show(rets[0].term) == want and any('Entry::Occupied' in g[3] for g in rets[0].guards),
                 ctx.site(D.PROCESS, a.node), built=[S.show(x.term) for x in rets], expected=want + ' under Entry::Occupied')
         ent = a.calls('HashMap::entry')
@@ -161,7 +171,7 @@ def r075(ctx):
         r.eq('state', S.show(asg[0].term), 'io_loop::connection_state::ConnectionState::ClientException', site)
         rows = P.table(ctx, 'io_loop::IoLoop::run_connection', ['self', 'stream', 'ch0_slot'])
         ce = [x for x in rows if x.cond_strs() and 'ConnectionState::ClientException' in x.cond_strs()[-1]]
-        r.check('result', len(ce) == 1 and ce[0].value_str() == 'errors::ClientExceptionSnafu::fail(errors::ClientExceptionSnafu)', ctx.site('io_loop::IoLoop::run_connection'),
+        r.check('result', len(ce) == 1 and ce[0].value_str() == 'Err(errors::Error::ClientException)', ctx.site('io_loop::IoLoop::run_connection'),
                 built=[x.row() for x in ce])
 
 
